@@ -41,5 +41,27 @@ def grid_from(lon, lat, faces, **kw):
                                  face_node_connectivity=np.array(faces), fill_value=FILL, **kw)
 
 
+def grid_of(mesh, **kw):
+    """a FRESH Grid for a meshgen mesh"""
+    return ux.Grid.from_topology(node_lon=np.array(mesh["lon"], float), node_lat=np.array(mesh["lat"], float),
+                                 face_node_connectivity=np.array(mesh["faces"]), fill_value=FILL, **kw)
+
+
+def dedupe(failures, limit=40):
+    seen, out = set(), []
+    for f in failures:
+        k = f.get("key") or f.get("what") or f.get("violated")
+        if k in seen:
+            continue
+        seen.add(k)
+        out.append(f)
+    return out[:limit]
+
+
 def result(cases, distinct, failures, bound, samples=None):
-    return {"cases": cases, "distinct": distinct, "failures": failures[:3], "bound": bound, "samples": samples or []}
+    return {"cases": int(cases), "distinct": int(distinct), "failures": dedupe(failures), "bound": bound,
+            "samples": (samples or [])[:3]}
+
+
+def close(a, b, rtol=1e-9, atol=1e-9):
+    return bool(np.allclose(np.asarray(a, float), np.asarray(b, float), rtol=rtol, atol=atol, equal_nan=True))
